@@ -1576,6 +1576,22 @@ pub fn run(args: &Args) -> i32 {
         ev.floor("hub", "verb:status", 0.1);
     }
     let cases = args.cases(450, 7500);
-    engine::run_pbt(&mut ev, args, "hub", cases, strategy, check);
+    // the hub runs in its own thread against real sockets and timers: a failure is reported only when it
+    // reproduces on a second or third run of the same history (DESIGN §2.4), like the wire labs do; the
+    // committed strict reproducers of known findings are deterministic and go through the same path
+    let confirmed = |case: &Case| -> CheckResult {
+        let first = check(case);
+        let Err(f) = first else { return first };
+        for _ in 0..2 {
+            if let Err(f2) = check(case) {
+                return Err(if f2.signature == f.signature { f2 } else { f });
+            }
+        }
+        engine::note_flaky("C09", &f, &serde_json::to_string(case).unwrap_or_default());
+        let mut rep = CaseReport::default();
+        rep.class("flaky_unconfirmed");
+        Ok(rep)
+    };
+    engine::run_pbt(&mut ev, args, "hub", cases, strategy, confirmed);
     ev.finish()
 }
